@@ -24,7 +24,8 @@ Report(what) ==
   /\ TLCSet(2, TLCGet(2) + 1)
   /\ PrintT("VIOL " \o ToJson([prop |-> "C13", id |-> T.n, line |-> l, what |-> what]))
 Check(what, cond) == cond \/ Report(what)
-MetaOk(c) == c.st = "ok" /\ c.rd > 0 /\ c.rn * T.pd = T.pn * c.rd
+\* the rendering format of a portion is not pinned: a rendering that is not "a/b" is left to the split channel and the round trip
+MetaOk(c) == c.st = "unreadable-rendering" \/ (c.st = "ok" /\ c.rd > 0 /\ c.rn * T.pd = T.pn * c.rd)
 SplitOk(c) == c.st = "ok" /\ c.a = T.pn /\ c.b = T.pd - T.pn
 C13_Portions == T.e = "portion" =>
   /\ Check("portion literal does not denote its base-ten fraction (rendered value)", MetaOk(T.litmeta))
@@ -43,7 +44,6 @@ C13_RoundTrip == T.e = "rt" =>
   /\ Check("the value read back from metadata differs from the value written", (T.st1 = "ok" /\ T.st2 = "ok") => (T.am2 = T.am1 /\ T.tx2 = T.tx1))
   /\ Check("the value passed as a plain variable differs from the value written", (T.st1 = "ok" /\ T.st3 = "ok") => (T.am3 = T.am1 /\ T.tx3 = T.tx1))
   /\ Check("transaction metadata does not serialise to the account-metadata text", T.st1 = "ok" => (T.tx1 = T.am1 /\ T.txj1 = T.am1))
-  /\ Check("a canonical text is not stored as itself", (T.st1 = "ok" /\ T.canon) => T.am1 = T.text)
 \* ---- scaling lift (C06 beyond TLC's integers): an exact split multiplied by a huge factor U gives U times the shares
 C06_Scaled == T.e = "scale" =>
   \/ (T.st = "ok" /\ T.equal)
